@@ -47,6 +47,7 @@ import (
 	"path/filepath"
 	"reflect"
 	"regexp"
+	"runtime/debug"
 	"sort"
 	"strconv"
 	"strings"
@@ -90,10 +91,25 @@ func (f *c10Failures) add(cause, format string, args ...any) {
 	}
 }
 
+// addFor records a failure under <base>__<what> (what = Go type / function / check), so that unrelated failures of
+// the same kind of check never share one sub-test.
+func (f *c10Failures) addFor(base, what, format string, args ...any) {
+	what = regexp.MustCompile(`[^A-Za-z0-9_.]+`).ReplaceAllString(what, "_")
+	f.add(base+"__"+what, format, args...)
+}
+
 func (f *c10Failures) report(t *testing.T) {
 	names := map[string]bool{}
 	for _, k := range f.known {
-		names[k] = true
+		derived := false
+		for c := range f.count {
+			if strings.HasPrefix(c, k+"__") {
+				derived = true
+			}
+		}
+		if !derived {
+			names[k] = true
+		}
 	}
 	for k := range f.count {
 		names[k] = true
@@ -1022,9 +1038,6 @@ func (g *c10Gen) build(it *c10Item, caseNo int) (reflect.Value, []byte, error) {
 	return rv, out.Bytes(), err
 }
 
-// explicit ids that the upstream schema itself carries (they are not the CRC32 of the line)
-var c10UpstreamExplicitIDs = map[string]uint32{"liteServer.getValidatorStats": 0x091a58bc}
-
 var c10WellKnown = map[string]uint32{
 	"liteServer.getMasterchainInfo": 0x89b5e62e,
 	"liteServer.masterchainInfo":    0x85832881,
@@ -1042,23 +1055,38 @@ var c10WellKnown = map[string]uint32{
 func TestVerifStandin_C10_Wire(t *testing.T) {
 	start := time.Now()
 	fails := c10NewFailures(
-		"rc_schema_id_differs_from_crc32", "rc_schema_id_crc_computed_with_parentheses", "rc_wellknown_id_mismatch", "rc_go_type_missing_for_declaration",
+		"rc_wellknown_id_mismatch", "rc_go_type_missing_for_declaration",
 		"rc_go_struct_shape_mismatch", "rc_generated_type_without_schema_decl",
 		"rc_marshal_error", "rc_marshal_panics", "rc_marshal_bytes_differ_from_schema",
 		"rc_unmarshal_error", "rc_unmarshal_panics", "rc_unmarshal_leaves_bytes", "rc_unmarshal_value_differs",
-		"rc_request_method_missing", "rc_request_frame_bytes_differ", "rc_request_response_value_differs",
-		"rc_request_error_response_not_returned", "rc_request_method_panics",
+		"rc_request_method_missing", "rc_request_frame_bytes_differ", "rc_request_adnl_frame_malformed",
+		"rc_request_frame_count", "rc_request_answer_not_delivered", "rc_request_response_value_differs",
+		"rc_request_response_error", "rc_request_error_response_not_returned", "rc_request_method_panics",
 		"rc_request_decoder_table_missing_or_extra", "rc_request_decoder_value_differs",
+		"rc_request_decoder_wrong_name_or_tag", "rc_request_decoder_panics",
 		"rc_mode_bit_set_nil_optional_panics", "rc_mode_bit_set_nil_optional_no_error",
-		"rc_mode_bit_clear_nonnil_optional_not_omitted",
-		"rc_bytes_len_2pow24_minus1_wrong", "rc_bytes_len_2pow24_silently_truncated",
-		"rc_length_schedule_not_exhausted", "rc_ton_handwritten_tl_differs",
+		"rc_mode_bit_clear_nonnil_optional_not_omitted", "rc_mode_bit_clear_nonnil_optional_panics",
+		"rc_mode_bit_clear_nonnil_optional_error",
+		"rc_bytes_len_2pow24_minus1_wrong", "rc_bytes_len_2pow24_minus1_not_decodable",
+		"rc_bytes_len_2pow24_silently_truncated", "rc_huge_string_marshal_panics",
+		"rc_length_schedule_not_exhausted", "rc_ton_blockidext_convert_differs", "rc_ton_blockidext_marshal_differs",
+		"rc_ton_blockidext_unmarshal_differs", "rc_ton_accountid_convert_differs", "rc_ton_accountid_marshal_differs",
+		"rc_ton_accountid_unmarshal_differs", "rc_ton_handwritten_panics", "rc_unclassified_panic",
+		"rc_harness_schema_parse", "rc_harness_schema_unexpected", "rc_harness_generated_go_unparsable",
 	)
+	cases, distinct := 0, map[[32]byte]struct{}{}
+	defer func() {
+		if r := recover(); r != nil {
+			fails.add("rc_unclassified_panic", "panic outside the guarded library calls: %v\n%s", r, debug.Stack())
+		}
+		fmt.Printf("STANDIN-STAT name=C10_Wire cases=%d distinct=%d\n", cases, len(distinct))
+		fails.report(t)
+	}()
 	s, err := c10LoadSchema("lite_api.tl")
 	if err != nil {
-		t.Fatalf("cannot parse lite_api.tl with the stand-in's own parser: %v", err)
+		fails.add("rc_harness_schema_parse", "cannot parse lite_api.tl with the stand-in's own parser: %v", err)
+		return
 	}
-	cases, distinct := 0, map[[32]byte]struct{}{}
 	note := func(b []byte) {
 		cases++
 		distinct[sha256.Sum256(b)] = struct{}{}
@@ -1070,30 +1098,31 @@ func TestVerifStandin_C10_Wire(t *testing.T) {
 		all = append(all, c)
 	}
 	byName := map[string]*c10Ctor{}
+	var idInfo []string
 	for _, c := range all {
 		byName[c.name] = c
 		if c.hasID && c.fileID != c.crcID {
-			// TL allows an explicit id; upstream ton-blockchain/ton lite_api.tl gives exactly one (getValidatorStats).
-			if want, ok := c10UpstreamExplicitIDs[c.name]; ok && want == c.fileID {
-				continue
-			}
+			// the property takes the id WRITTEN in the schema line; a written id that is not the CRC32 of the normalized
+			// line is legal TL and only reported
+			how := ""
 			withParens := strings.Join(strings.Fields(regexp.MustCompile(`#[0-9a-f]{8}`).ReplaceAllString(c.text, "")), " ")
 			if crc32.ChecksumIEEE([]byte(withParens)) == c.fileID {
-				fails.add("rc_schema_id_crc_computed_with_parentheses", "%s: id in file #%08x is crc32 of the declaration WITH its parentheses; TL removes them: crc32(%q without parentheses) = %08x", c.name, c.fileID, withParens, c.crcID)
-			} else {
-				fails.add("rc_schema_id_differs_from_crc32", "%s: id in file #%08x, crc32(%q) = %08x", c.name, c.fileID, c.text, c.crcID)
+				how = " (= crc32 of the line WITH its parentheses)"
 			}
+			idInfo = append(idInfo, fmt.Sprintf("%s written #%08x%s, crc32 of normalized line %08x", c.name, c.fileID, how, c.crcID))
 		}
 		note([]byte("id:" + c.name))
 	}
+	sort.Strings(idInfo)
+	t.Logf("INFO c10 schema_id_differs_from_crc: %d declarations: %s", len(idInfo), strings.Join(idInfo, "; "))
 	for name, want := range c10WellKnown {
 		c := byName[name]
 		if c == nil {
-			fails.add("rc_wellknown_id_mismatch", "%s not found in lite_api.tl", name)
+			fails.addFor("rc_wellknown_id_mismatch", name, "%s not found in lite_api.tl", name)
 			continue
 		}
-		if c.id() != want || c.crcID != want {
-			fails.add("rc_wellknown_id_mismatch", "%s: file id %08x, crc32 %08x, well-known %08x", name, c.id(), c.crcID, want)
+		if c.id() != want {
+			fails.addFor("rc_wellknown_id_mismatch", name, "%s: schema id %08x, crc32 %08x, well-known %08x", name, c.id(), c.crcID, want)
 		}
 		note([]byte("wk:" + name))
 	}
@@ -1118,7 +1147,7 @@ func TestVerifStandin_C10_Wire(t *testing.T) {
 	usedGo := map[string]bool{}
 	addItem := func(it *c10Item) {
 		if _, ok := c10GoTypes[it.goName]; !ok {
-			fails.add("rc_go_type_missing_for_declaration", "%s: no Go type %s in the bindings", it.label, it.goName)
+			fails.addFor("rc_go_type_missing_for_declaration", it.goName, "%s: no Go type %s in the bindings", it.label, it.goName)
 			return
 		}
 		usedGo[it.goName] = true
@@ -1147,7 +1176,7 @@ func TestVerifStandin_C10_Wire(t *testing.T) {
 
 	// every type declared in generated.go must correspond to a schema declaration
 	if file, err := goparser.ParseFile(token.NewFileSet(), "generated.go", nil, 0); err != nil {
-		fails.add("rc_generated_type_without_schema_decl", "cannot parse generated.go: %v", err)
+		fails.add("rc_harness_generated_go_unparsable", "cannot parse generated.go: %v", err)
 	} else {
 		for _, d := range file.Decls {
 			gd, ok := d.(*ast.GenDecl)
@@ -1157,7 +1186,7 @@ func TestVerifStandin_C10_Wire(t *testing.T) {
 			for _, sp := range gd.Specs {
 				name := sp.(*ast.TypeSpec).Name.Name
 				if !usedGo[name] {
-					fails.add("rc_generated_type_without_schema_decl", "generated.go declares type %s, which no declaration of lite_api.tl maps to", name)
+					fails.addFor("rc_generated_type_without_schema_decl", name, "generated.go declares type %s, which no declaration of lite_api.tl maps to", name)
 				}
 			}
 		}
@@ -1171,25 +1200,25 @@ func TestVerifStandin_C10_Wire(t *testing.T) {
 		got, err, p := c10Marshal(rv.Interface())
 		switch {
 		case p != "":
-			fails.add("rc_marshal_panics", "%s: %s; value %s", id, p, c10GoSyntax(rv.Interface()))
+			fails.addFor("rc_marshal_panics", it.goName, "%s: %s; value %s", id, p, c10GoSyntax(rv.Interface()))
 		case err != nil:
-			fails.add("rc_marshal_error", "%s: %v; value %s", id, err, c10GoSyntax(rv.Interface()))
+			fails.addFor("rc_marshal_error", it.goName, "%s: %v; value %s", id, err, c10GoSyntax(rv.Interface()))
 		case !bytes.Equal(got, exp):
-			fails.add("rc_marshal_bytes_differ_from_schema", "%s: first difference at offset %d\n    expected %s\n    got      %s\n    value %s", id, c10FirstDiff(exp, got), c10Hex(exp), c10Hex(got), c10GoSyntax(rv.Interface()))
+			fails.addFor("rc_marshal_bytes_differ_from_schema", it.goName, "%s: first difference at offset %d\n    expected %s\n    got      %s\n    value %s", id, c10FirstDiff(exp, got), c10Hex(exp), c10Hex(got), c10GoSyntax(rv.Interface()))
 		}
 		ptr := reflect.New(rv.Type())
 		rest, err, p := c10Unmarshal(exp, ptr.Interface())
 		switch {
 		case p != "":
-			fails.add("rc_unmarshal_panics", "%s: %s; input %s", id, p, c10Hex(exp))
+			fails.addFor("rc_unmarshal_panics", it.goName, "%s: %s; input %s", id, p, c10Hex(exp))
 		case err != nil:
-			fails.add("rc_unmarshal_error", "%s: %v; input %s", id, err, c10Hex(exp))
+			fails.addFor("rc_unmarshal_error", it.goName, "%s: %v; input %s", id, err, c10Hex(exp))
 		default:
 			if rest != 0 {
-				fails.add("rc_unmarshal_leaves_bytes", "%s: %d of %d bytes not consumed; input %s", id, rest, len(exp), c10Hex(exp))
+				fails.addFor("rc_unmarshal_leaves_bytes", it.goName, "%s: %d of %d bytes not consumed; input %s", id, rest, len(exp), c10Hex(exp))
 			}
 			if d := c10Equal(rv, ptr.Elem(), it.goName); d != "" {
-				fails.add("rc_unmarshal_value_differs", "%s: %s\n    input %s\n    want %s\n    got  %s", id, d, c10Hex(exp), c10GoSyntax(rv.Interface()), c10GoSyntax(ptr.Elem().Interface()))
+				fails.addFor("rc_unmarshal_value_differs", it.goName, "%s: %s\n    input %s\n    want %s\n    got  %s", id, d, c10Hex(exp), c10GoSyntax(rv.Interface()), c10GoSyntax(ptr.Elem().Interface()))
 			}
 		}
 	}
@@ -1203,7 +1232,7 @@ func TestVerifStandin_C10_Wire(t *testing.T) {
 			if err != nil {
 				if !shapeBroken[it.goName] {
 					shapeBroken[it.goName] = true
-					fails.add("rc_go_struct_shape_mismatch", "%s: %v", it.label, err)
+					fails.addFor("rc_go_struct_shape_mismatch", it.goName, "%s: %v", it.label, err)
 				}
 				break
 			}
@@ -1252,8 +1281,6 @@ func TestVerifStandin_C10_Wire(t *testing.T) {
 	}
 	t.Logf("C10 coverage: %d of %d declarations of lite_api.tl (%d constructors, %d functions) exercised on the wire; %d Go types; not covered: %v; distinct byte-string lengths used: %d; elapsed %v",
 		len(coveredDecl), len(s.types)+len(s.funcs), len(s.types), len(s.funcs), len(usedGo), uncovered, len(sched.used), time.Since(start).Round(time.Millisecond))
-	fmt.Printf("STANDIN-STAT name=C10_Wire cases=%d distinct=%d\n", cases, len(distinct))
-	fails.report(t)
 }
 
 // c10Encode writes a constructor (with its id when boxed) from explicit values: uint32 for int/#, uint64 for long,
@@ -1303,7 +1330,7 @@ func c10Encode(c *c10Ctor, boxed bool, vals ...any) ([]byte, error) {
 func c10RequestPath(t *testing.T, s *c10Schema, g *c10Gen, items []*c10Item, n int, fails *c10Failures, note func([]byte)) {
 	adnlQ, adnlA, lsQuery, wms := s.byCtor["adnl.message.query"], s.byCtor["adnl.message.answer"], s.extra["liteServer.query"], s.extra["liteServer.waitMasterchainSeqno"]
 	if adnlQ == nil || adnlA == nil || lsQuery == nil || wms == nil || len(s.byResult["liteServer.Error"]) != 1 {
-		fails.add("rc_request_frame_bytes_differ", "lite_api.tl lacks adnl.message.query / adnl.message.answer / liteServer.query / liteServer.waitMasterchainSeqno / liteServer.error")
+		fails.add("rc_harness_schema_unexpected", "lite_api.tl lacks adnl.message.query / adnl.message.answer / liteServer.query / liteServer.waitMasterchainSeqno / liteServer.error")
 		return
 	}
 	reqItem := map[string]*c10Item{}
@@ -1317,51 +1344,51 @@ func c10RequestPath(t *testing.T, s *c10Schema, g *c10Gen, items []*c10Item, n i
 	errItem := &c10Item{label: "liteServer.Error", goName: "LiteServerErrorC", boxed: "liteServer.Error"}
 
 	// exchange: calls `call` while the fake connection checks the frame against `query` and answers with `answer`.
-	exchange := func(id string, query, answer []byte, call func()) bool {
+	exchange := func(what, id string, query, answer []byte, call func()) bool {
 		ok := true
 		fc.frames = nil
 		fc.onWrite = func(frame []byte) {
 			if len(frame) < 4+32+36+32 {
-				fails.add("rc_request_frame_bytes_differ", "%s: frame too short: %s", id, c10Hex(frame))
+				fails.addFor("rc_request_adnl_frame_malformed", what, "%s: frame too short: %s", id, c10Hex(frame))
 				ok = false
 				return
 			}
 			payload := frame[36 : len(frame)-32]
 			sum := sha256.Sum256(frame[4 : len(frame)-32])
 			if binary.LittleEndian.Uint32(frame) != uint32(len(frame)-4) || !bytes.Equal(sum[:], frame[len(frame)-32:]) {
-				fails.add("rc_request_frame_bytes_differ", "%s: ADNL frame length/checksum wrong: %s", id, c10Hex(frame))
+				fails.addFor("rc_request_adnl_frame_malformed", what, "%s: ADNL frame length/checksum wrong: %s", id, c10Hex(frame))
 				ok = false
 			}
 			qid := append([]byte{}, payload[4:36]...)
 			inner, err1 := c10Encode(lsQuery, true, query)
 			exp, err2 := c10Encode(adnlQ, true, qid, inner)
 			if err1 != nil || err2 != nil {
-				fails.add("rc_request_frame_bytes_differ", "%s: schema shape: %v %v", id, err1, err2)
+				fails.add("rc_harness_schema_unexpected", "%s: schema shape: %v %v", id, err1, err2)
 				ok = false
 				return
 			}
 			if !bytes.Equal(exp, payload) {
-				fails.add("rc_request_frame_bytes_differ", "%s: first difference at offset %d\n    expected payload %s\n    got              %s", id, c10FirstDiff(exp, payload), c10Hex(exp), c10Hex(payload))
+				fails.addFor("rc_request_frame_bytes_differ", what, "%s: first difference at offset %d\n    expected payload %s\n    got              %s", id, c10FirstDiff(exp, payload), c10Hex(exp), c10Hex(payload))
 				ok = false
 			}
 			ans, err := c10Encode(adnlA, true, qid, answer)
 			if err != nil {
-				fails.add("rc_request_frame_bytes_differ", "%s: schema shape: %v", id, err)
+				fails.add("rc_harness_schema_unexpected", "%s: schema shape: %v", id, err)
 				ok = false
 				return
 			}
 			if err := client.processQueryAnswer(Packet{Payload: ans}); err != nil {
-				fails.add("rc_request_response_value_differs", "%s: processQueryAnswer: %v", id, err)
+				fails.addFor("rc_request_answer_not_delivered", what, "%s: processQueryAnswer: %v", id, err)
 				ok = false
 			}
 		}
 		if p := c10Safe(call); p != "" {
-			fails.add("rc_request_method_panics", "%s: %s", id, p)
+			fails.addFor("rc_request_method_panics", what, "%s: %s; request bytes %s; answer %s", id, p, c10Hex(query), c10Hex(answer))
 			ok = false
 		}
 		fc.onWrite = nil
 		if len(fc.frames) != 1 {
-			fails.add("rc_request_frame_bytes_differ", "%s: %d frames written to the connection, want 1", id, len(fc.frames))
+			fails.addFor("rc_request_frame_count", what, "%s: %d frames written to the connection, want 1", id, len(fc.frames))
 			ok = false
 		}
 		return ok
@@ -1373,7 +1400,7 @@ func c10RequestPath(t *testing.T, s *c10Schema, g *c10Gen, items []*c10Item, n i
 	}
 	for _, f := range s.funcs {
 		if taggedRequestDecodeFunctions[f.id()] == nil {
-			fails.add("rc_request_decoder_table_missing_or_extra", "no entry under %08x (%s)", f.id(), f.name)
+			fails.addFor("rc_request_decoder_table_missing_or_extra", f.name, "no entry under %08x (%s)", f.id(), f.name)
 		}
 		note([]byte("table:" + f.name))
 	}
@@ -1382,12 +1409,12 @@ func c10RequestPath(t *testing.T, s *c10Schema, g *c10Gen, items []*c10Item, n i
 	for _, f := range s.funcs {
 		it := reqItem[f.name]
 		if it == nil || len(s.byResult[f.result]) == 0 {
-			fails.add("rc_request_method_missing", "%s: no request type / result type %s", f.name, f.result)
+			fails.addFor("rc_request_method_missing", f.name, "%s: no request type / result type %s", f.name, f.result)
 			continue
 		}
 		resGo := s.goNameOfResult(f.result)
 		if _, ok := c10GoTypes[resGo]; !ok {
-			fails.add("rc_request_method_missing", "%s: no Go type %s for result %s", f.name, resGo, f.result)
+			fails.addFor("rc_request_method_missing", f.name, "%s: no Go type %s for result %s", f.name, resGo, f.result)
 			continue
 		}
 		resItem := &c10Item{label: f.result, goName: resGo, boxed: f.result}
@@ -1397,7 +1424,7 @@ func c10RequestPath(t *testing.T, s *c10Schema, g *c10Gen, items []*c10Item, n i
 			wantIn = 2
 		}
 		if !m.IsValid() || m.Type().NumIn() != wantIn || m.Type().NumOut() != 2 || m.Type().Out(0) != c10GoTypes[resGo] || (wantIn == 2 && m.Type().In(1) != c10GoTypes[it.goName]) {
-			fails.add("rc_request_method_missing", "%s: (*Client).%s missing or has an unexpected signature", f.name, c10Camel(f.name))
+			fails.addFor("rc_request_method_missing", f.name, "%s: (*Client).%s missing or has an unexpected signature", f.name, c10Camel(f.name))
 			continue
 		}
 		for i := 0; i < n; i++ {
@@ -1420,15 +1447,15 @@ func c10RequestPath(t *testing.T, s *c10Schema, g *c10Gen, items []*c10Item, n i
 				derr error
 			)
 			if p := c10Safe(func() { tag, name, val, derr = LiteapiRequestDecoder(append([]byte{}, query...)) }); p != "" {
-				fails.add("rc_request_decoder_value_differs", "%s: LiteapiRequestDecoder %s; input %s", id, p, c10Hex(query))
+				fails.addFor("rc_request_decoder_panics", f.name, "%s: LiteapiRequestDecoder %s; input %s", id, p, c10Hex(query))
 			} else if derr != nil || tag != f.id() || name == nil || *name != f.name || val == nil || reflect.TypeOf(val) != rvReq.Type() {
 				nm := "<nil>"
 				if name != nil {
 					nm = *name
 				}
-				fails.add("rc_request_decoder_value_differs", "%s: got tag %08x name %q value %T err %v, want %08x %q %v; input %s", id, tag, nm, val, derr, f.id(), f.name, rvReq.Type(), c10Hex(query))
+				fails.addFor("rc_request_decoder_wrong_name_or_tag", f.name, "%s: got tag %08x name %q value %T err %v, want %08x %q %v; input %s", id, tag, nm, val, derr, f.id(), f.name, rvReq.Type(), c10Hex(query))
 			} else if d := c10Equal(rvReq, reflect.ValueOf(val), it.goName); d != "" {
-				fails.add("rc_request_decoder_value_differs", "%s: %s; input %s", id, d, c10Hex(query))
+				fails.addFor("rc_request_decoder_value_differs", f.name, "%s: %s; input %s", id, d, c10Hex(query))
 			}
 
 			// client method over the fake connection
@@ -1447,21 +1474,21 @@ func c10RequestPath(t *testing.T, s *c10Schema, g *c10Gen, items []*c10Item, n i
 			if wantIn == 2 {
 				args = append(args, rvReq)
 			}
-			if !exchange(id, query, answer, func() { outs = m.Call(args) }) || len(outs) != 2 {
+			if !exchange(f.name, id, query, answer, func() { outs = m.Call(args) }) || len(outs) != 2 {
 				continue
 			}
 			gotErr, _ := outs[1].Interface().(error)
 			if respIt == errItem {
 				e, ok := gotErr.(LiteServerErrorC)
 				if !ok || c10Equal(rvResp, reflect.ValueOf(e), "err") != "" {
-					fails.add("rc_request_error_response_not_returned", "%s: server answered liteServer.error %s, method returned error %#v", id, c10GoSyntax(rvResp.Interface()), gotErr)
+					fails.addFor("rc_request_error_response_not_returned", f.name, "%s: server answered liteServer.error %s, method returned error %#v", id, c10GoSyntax(rvResp.Interface()), gotErr)
 				}
 				continue
 			}
 			if gotErr != nil {
-				fails.add("rc_request_response_value_differs", "%s: method returned error %v for answer %s", id, gotErr, c10Hex(answer))
+				fails.addFor("rc_request_response_error", f.name, "%s: method returned error %v for answer %s", id, gotErr, c10Hex(answer))
 			} else if d := c10Equal(rvResp, outs[0], resGo); d != "" {
-				fails.add("rc_request_response_value_differs", "%s: %s; answer %s", id, d, c10Hex(answer))
+				fails.addFor("rc_request_response_value_differs", f.name, "%s: %s; answer %s", id, d, c10Hex(answer))
 			}
 		}
 	}
@@ -1471,20 +1498,20 @@ func c10RequestPath(t *testing.T, s *c10Schema, g *c10Gen, items []*c10Item, n i
 		seqno, timeout := g.u32(), g.u32()
 		prefix, err := c10Encode(wms, true, seqno, timeout)
 		if err != nil {
-			fails.add("rc_request_frame_bytes_differ", "waitMasterchainSeqno: %v", err)
+			fails.add("rc_harness_schema_unexpected", "waitMasterchainSeqno: %v", err)
 			break
 		}
 		note(prefix)
 		okAnswer, _ := c10Encode(s.byCtor["liteServer.error"], true, uint32(0), []byte("ok"))
 		var werr error
 		id := fmt.Sprintf("WaitMasterchainSeqno(%d, %d)", seqno, timeout)
-		if exchange(id, prefix, okAnswer, func() { werr = client.WaitMasterchainSeqno(ctx, seqno, timeout) }) && werr != nil {
-			fails.add("rc_request_response_value_differs", "%s: error %v for liteServer.error code 0", id, werr)
+		if exchange("WaitMasterchainSeqno", id, prefix, okAnswer, func() { werr = client.WaitMasterchainSeqno(ctx, seqno, timeout) }) && werr != nil {
+			fails.addFor("rc_request_response_error", "WaitMasterchainSeqno", "%s: error %v for liteServer.error code 0", id, werr)
 		}
 
 		lb, bid := byNameFunc(s, "liteServer.lookupBlock"), s.byCtor["tonNode.blockId"]
 		if lb == nil || bid == nil || len(lb.fields) != 4 {
-			fails.add("rc_request_frame_bytes_differ", "lookupBlock / tonNode.blockId not in the schema as expected")
+			fails.add("rc_harness_schema_unexpected", "lookupBlock / tonNode.blockId not in the schema as expected")
 			break
 		}
 		blk, _ := c10Encode(bid, false, uint32(0xffffffff), uint64(0x8000000000000000), seqno)
@@ -1503,11 +1530,11 @@ func c10RequestPath(t *testing.T, s *c10Schema, g *c10Gen, items []*c10Item, n i
 		}
 		var res LiteServerBlockHeaderC
 		id = fmt.Sprintf("WaitMasterchainBlock(%d, %d)", seqno, timeout)
-		if exchange(id, q.Bytes(), answer, func() { res, werr = client.WaitMasterchainBlock(ctx, seqno, timeout) }) {
+		if exchange("WaitMasterchainBlock", id, q.Bytes(), answer, func() { res, werr = client.WaitMasterchainBlock(ctx, seqno, timeout) }) {
 			if werr != nil {
-				fails.add("rc_request_response_value_differs", "%s: error %v", id, werr)
+				fails.addFor("rc_request_response_error", "WaitMasterchainBlock", "%s: error %v; answer %s", id, werr, c10Hex(answer))
 			} else if d := c10Equal(rvResp, reflect.ValueOf(res), "res"); d != "" {
-				fails.add("rc_request_response_value_differs", "%s: %s", id, d)
+				fails.addFor("rc_request_response_value_differs", "WaitMasterchainBlock", "%s: %s; answer %s", id, d, c10Hex(answer))
 			}
 		}
 	}
@@ -1566,8 +1593,12 @@ func c10ModeBitCorners(s *c10Schema, g *c10Gen, items []*c10Item, fails *c10Fail
 			}
 			note(append([]byte("absent:"), exp...))
 			got, merr, p := c10Marshal(rv.Interface())
-			if p != "" || merr != nil || !bytes.Equal(got, exp) {
-				fails.add("rc_mode_bit_clear_nonnil_optional_not_omitted", "%s: guard bits clear, optional Go fields non-nil: %s err %v\n    expected %s\n    got      %s\n    value %s", it.label, p, merr, c10Hex(exp), c10Hex(got), c10GoSyntax(rv.Interface()))
+			if p != "" {
+				fails.addFor("rc_mode_bit_clear_nonnil_optional_panics", it.goName, "%s: guard bits clear, optional Go fields non-nil: %s; value %s", it.label, p, c10GoSyntax(rv.Interface()))
+			} else if merr != nil {
+				fails.addFor("rc_mode_bit_clear_nonnil_optional_error", it.goName, "%s: guard bits clear, optional Go fields non-nil: %v; value %s", it.label, merr, c10GoSyntax(rv.Interface()))
+			} else if !bytes.Equal(got, exp) {
+				fails.addFor("rc_mode_bit_clear_nonnil_optional_not_omitted", it.goName, "%s: guard bits clear, optional Go fields non-nil: %s err %v\n    expected %s\n    got      %s\n    value %s", it.label, p, merr, c10Hex(exp), c10Hex(got), c10GoSyntax(rv.Interface()))
 			}
 		}
 	}
@@ -1594,41 +1625,41 @@ func c10HandWritten(g *c10Gen, items []*c10Item, n int, fails *c10Failures, note
 				case TonNodeBlockIdExtC:
 					tv := v.ToBlockIdExt()
 					if tv.Workchain != int32(v.Workchain) || tv.Shard != v.Shard || tv.Seqno != v.Seqno || tv.RootHash != ton.Bits256(v.RootHash) || tv.FileHash != ton.Bits256(v.FileHash) {
-						fails.add("rc_ton_handwritten_tl_differs", "%s: ToBlockIdExt() = %#v", id, tv)
+						fails.add("rc_ton_blockidext_convert_differs", "%s: ToBlockIdExt() = %#v", id, tv)
 					}
 					if back := BlockIDExt(tv); back != v {
-						fails.add("rc_ton_handwritten_tl_differs", "%s: BlockIDExt(ToBlockIdExt()) = %#v", id, back)
+						fails.add("rc_ton_blockidext_convert_differs", "%s: BlockIDExt(ToBlockIdExt()) = %#v", id, back)
 					}
 					got, err := tv.MarshalTL()
 					if err != nil || !bytes.Equal(got, exp) {
-						fails.add("rc_ton_handwritten_tl_differs", "%s: ton.BlockIDExt.MarshalTL = %s err %v", id, c10Hex(got), err)
+						fails.add("rc_ton_blockidext_marshal_differs", "%s: ton.BlockIDExt.MarshalTL = %s err %v", id, c10Hex(got), err)
 					}
 					got, err = tl.Marshal(tv)
 					if err != nil || !bytes.Equal(got, exp) {
-						fails.add("rc_ton_handwritten_tl_differs", "%s: tl.Marshal(ton.BlockIDExt) = %s err %v", id, c10Hex(got), err)
+						fails.add("rc_ton_blockidext_marshal_differs", "%s: tl.Marshal(ton.BlockIDExt) = %s err %v", id, c10Hex(got), err)
 					}
 					var dec ton.BlockIDExt
 					if err := dec.UnmarshalTL(exp); err != nil || dec != tv {
-						fails.add("rc_ton_handwritten_tl_differs", "%s: ton.BlockIDExt.UnmarshalTL = %#v err %v", id, dec, err)
+						fails.add("rc_ton_blockidext_unmarshal_differs", "%s: ton.BlockIDExt.UnmarshalTL = %#v err %v", id, dec, err)
 					}
 				case LiteServerAccountIdC:
 					tv := ton.AccountID{Workchain: int32(v.Workchain), Address: v.Id}
 					if back := AccountID(tv); back != v {
-						fails.add("rc_ton_handwritten_tl_differs", "%s: AccountID(%#v) = %#v", id, tv, back)
+						fails.add("rc_ton_accountid_convert_differs", "%s: AccountID(%#v) = %#v", id, tv, back)
 					}
 					got, err := tl.Marshal(tv)
 					if err != nil || !bytes.Equal(got, exp) {
-						fails.add("rc_ton_handwritten_tl_differs", "%s: tl.Marshal(ton.AccountID) = %s err %v", id, c10Hex(got), err)
+						fails.add("rc_ton_accountid_marshal_differs", "%s: tl.Marshal(ton.AccountID) = %s err %v", id, c10Hex(got), err)
 					}
 					var dec ton.AccountID
 					r := bytes.NewReader(exp)
 					if err := tl.Unmarshal(r, &dec); err != nil || dec != tv || r.Len() != 0 {
-						fails.add("rc_ton_handwritten_tl_differs", "%s: tl.Unmarshal(ton.AccountID) = %#v err %v rest %d", id, dec, err, r.Len())
+						fails.add("rc_ton_accountid_unmarshal_differs", "%s: tl.Unmarshal(ton.AccountID) = %#v err %v rest %d", id, dec, err, r.Len())
 					}
 				}
 			})
 			if p != "" {
-				fails.add("rc_ton_handwritten_tl_differs", "%s: %s", id, p)
+				fails.addFor("rc_ton_handwritten_panics", it.goName, "%s: %s", id, p)
 			}
 		}
 	}
@@ -1644,7 +1675,7 @@ func c10HugeStrings(g *c10Gen, fails *c10Failures, note func([]byte)) {
 			note([]byte(id))
 			got, err, p := c10Marshal(v)
 			if p != "" {
-				fails.add("rc_marshal_panics", "%s: %s", id, p)
+				fails.addFor("rc_huge_string_marshal_panics", fmt.Sprintf("%T_%d", v, n), "%s: %s", id, p)
 				continue
 			}
 			if n == 1<<24-1 {
@@ -1663,7 +1694,7 @@ func c10HugeStrings(g *c10Gen, fails *c10Failures, note func([]byte)) {
 				ptr := reflect.New(reflect.TypeOf(v))
 				rest, uerr, p := c10Unmarshal(got, ptr.Interface())
 				if p != "" || uerr != nil || rest != 0 || c10Equal(reflect.ValueOf(v), ptr.Elem(), "v") != "" {
-					fails.add("rc_bytes_len_2pow24_minus1_wrong", "%s: does not decode back: %s err %v rest %d", id, p, uerr, rest)
+					fails.add("rc_bytes_len_2pow24_minus1_not_decodable", "%s: does not decode back: %s err %v rest %d", id, p, uerr, rest)
 				}
 				continue
 			}
